@@ -8,6 +8,7 @@ import Driver.Server
 import Driver.Filter
 import Driver.Dav
 import Driver.AuthGate
+import Driver.Sync
 open Lean
 
 def dispatch (j : Json) : Json :=
@@ -19,6 +20,7 @@ def dispatch (j : Json) : Json :=
   | "server" => Driver.handleServer j
   | "filter" => Driver.handleFilter j
   | "authgate" => Driver.handleAuthGate j
+  | "sync" => Driver.handleSync j
   | "ping" => Driver.obj [("r", Json.str "pong")]
   | _ => Driver.obj [("error", Json.str "bad-model")]
 
